@@ -45,7 +45,10 @@ func writeEvidence(p string, spec *propSpec, tier string, seed uint64, a *sim.Ag
 			probes[k] = v
 		}
 	}
-	var gaps []string
+	gaps := []string{}
+	if knownHit == nil {
+		knownHit = []string{}
+	}
 	for _, want := range spec.wantProbes() {
 		if probes[want] == 0 {
 			gaps = append(gaps, want)
